@@ -308,7 +308,7 @@ func withDefer(k int) (r int32) {
 	defer println("arg", str, p.a)
 	s = []int32{int32(k + 1), 7}
 	str = "changed"
-	p = nil
+	p = &S{9, "newp" + itoa(k)}
 	churn(k)
 	return 10
 }
@@ -1077,37 +1077,78 @@ def aliasing_combined():
 
 _RENAME = ["W2", "W", "H", "use", "get", "two", "d", "g"]
 
+# Known compiler limits (recorded under C16 / gen/findings.py), avoided so that the loops measure memory management:
+#   value receivers (contexts methodval, methodmix; the matrix's `func (a A) M()`), `name []T` in fields/parameters
+#   (slice and array types get a named type), arrays boxed into interface{} or used as map values.
+MATRIX_SKIP_CONTEXTS = ("methodval", "methodmix")
+MATRIX_SKIP_PAIRS = {("arr", "box"), ("arr", "mapval")}
+MATRIX_PRELUDE = '''package main
+
+type S struct {
+	a int32
+	b string
+}
+
+type I interface {
+	M() int32
+}
+
+type A struct{ x int32 }
+
+func (a *A) M() int32 { return a.x }
+
+type SL []int32
+
+type ARR [3]int32
+
+var strs = [3]string{"a", "bb", "ccc"}
+'''
+MATRIX_TYPE_OVERRIDE = {
+    "sl": ("SL", "SL{{int32({i}), 2, 3}}", "{v}[0] + int32(len({v}))"),
+    "arr": ("ARR", "ARR{{int32({i}), 1, 2}}", "{v}[0]"),
+    "I": ("I", "I(&A{{int32({i})}})", "{v}.M()"),
+}
+
 
 def matrix_loop_programs(n, types=None, contexts=None):
     from gen import matrix
     progs = []
-    for t in (types or matrix.TYPES):
-        decls_all, bodies = [], []
-        names = []
-        for k, c in enumerate(contexts or matrix.CONTEXTS):
-            decls, body = matrix.CONTEXTS[c]
-            if c == "box" and t == "any":
-                body = "var e interface{{}} = {mk:13}\n\tv := e\n\tprintln({show:v})"
-            d, b = matrix._fill(decls, t), matrix._fill(body, t)
-            d = d.replace("{i}", "i")
-            for nm in _RENAME:
-                pat = re.compile(r"(?<![\w.\"])%s(?![\w\"])" % nm)
-                d = pat.sub("%s_%d" % (nm, k), d)
-                b = pat.sub("%s_%d" % (nm, k), b)
-            decls_all.append(d)
-            bodies.append((c, b))
-            names.append(c)
-        out = [matrix.PRELUDE, "\n".join(decls_all)]
-        for k, (c, b) in enumerate(bodies):
-            out.append("func body_%d() {\n\t%s\n}\n" % (k, b))
-        out.append("func main() {")
-        for k, (c, b) in enumerate(bodies):
-            out.append("\tfor i := 0; i < %d; i++ {" % n)
-            out.append("\t\tbody_%d()" % k)
-            out.append("\t\tif %s {\n\t\t\tprintln(\"CP\", %d, i+1)\n\t\t}" % (_cp_cond(n), k))
-            out.append("\t}")
-        out.append("}")
-        progs.append((t, "\n".join(out) + "\n", names))
+    saved = dict(matrix.TYPES)
+    try:
+        matrix.TYPES.update(MATRIX_TYPE_OVERRIDE)
+        for t in (types or list(matrix.TYPES)):
+            decls_all, bodies = [], []
+            names = []
+            k = 0
+            for c in (contexts or matrix.CONTEXTS):
+                if c in MATRIX_SKIP_CONTEXTS or (t, c) in MATRIX_SKIP_PAIRS:
+                    continue
+                decls, body = matrix.CONTEXTS[c]
+                if c == "box" and t == "any":
+                    body = "var e interface{{}} = {mk:13}\n\tv := e\n\tprintln({show:v})"
+                d, b = matrix._fill(decls, t), matrix._fill(body, t)
+                for nm in _RENAME:
+                    pat = re.compile(r"(?<![\w.\"])%s(?![\w\"])" % nm)
+                    d = pat.sub("%s_%d" % (nm, k), d)
+                    b = pat.sub("%s_%d" % (nm, k), b)
+                decls_all.append(d)
+                bodies.append((c, b))
+                names.append(c)
+                k += 1
+            out = [MATRIX_PRELUDE, "\n".join(decls_all)]
+            for k, (c, b) in enumerate(bodies):
+                out.append("func body_%d() {\n\t%s\n}\n" % (k, b))
+            out.append("func main() {")
+            for k, (c, b) in enumerate(bodies):
+                out.append("\tfor i := 0; i < %d; i++ {" % n)
+                out.append("\t\tbody_%d()" % k)
+                out.append("\t\tif %s {\n\t\t\tprintln(\"CP\", %d, i+1)\n\t\t}" % (_cp_cond(n), k))
+                out.append("\t}")
+            out.append("}")
+            progs.append((t, "\n".join(out) + "\n", names))
+    finally:
+        matrix.TYPES.clear()
+        matrix.TYPES.update(saved)
     return progs
 
 
@@ -1197,6 +1238,7 @@ def random_alias_program(rng, nops=40):
             L.append("\tdump(sl[:], st[:], pn[:], ws[:], m)")
     L.append("\tdump(sl[:], st[:], pn[:], ws[:], m)")
     L.append("\tchurn(3)")
+    L.append("\t_ = fs")
     dump = '''
 type SlSl []I32s
 
